@@ -381,6 +381,14 @@ pub fn gen(jura_kind: bool, seed: u64, cases: usize, flavour: &str, path: &str) 
                 12 => {
                     g.stats.bump("NOW");
                     g.line(&format!("NOW {bt}"));
+                    // over HTTP the id is a path segment: one that is not a backtest id at all must be refused
+                    if flavour.contains("http") && g.rng.chance(1, 3) {
+                        let seg = *g.rng.pick(&["-1", "abc", "1.5", "18446744073709551616", "0x1", " 1"]);
+                        let seg = seg.replace(' ', "%20");
+                        let (m, route) = *g.rng.pick(&[("GET", "tick"), ("GET", "fetch_quotes"), ("GET", "info"), ("POST", "insert_order"), ("POST", "delete_order")]);
+                        g.line(&format!("RAW {m} /backtest/{seg}/{route}"));
+                        g.stats.bump("RAW_malformed_id_segment");
+                    }
                 }
                 _ => {
                     g.stats.bump("INFO");
